@@ -58,7 +58,10 @@ def lua_hooks(model, mode_value):
     for op, fn in (("BitOr>?::bitor", lambda x, y: x | y), ("BitXor>?::bitxor", lambda x, y: x ^ y), ("BitAnd>?::bitand", lambda x, y: x & y), ("Sub>?::sub", lambda x, y: x & ~y)):
         add(r"mlua::StdLib as std::ops::%s$" % op, (lambda f: lambda it, n, a, t: f(a[0], a[1]) & 0xFFFFFFFF)(fn))
     add(r"mlua::StdLib as std::ops::Not>?::not$", lambda it, n, a, t: ~a[0] & 0xFFFFFFFF)
-    add(r"^mlua::StdLib::contains$", lambda it, n, a, t: (a[0] & a[1]) == a[1])
+    if model["contains"] == "intersects":
+        add(r"^mlua::StdLib::contains$", lambda it, n, a, t: (a[0] & a[1]) != 0)
+    else:
+        add(r"^mlua::StdLib::contains$", lambda it, n, a, t: (a[0] & a[1]) == a[1])
     add(r"^mlua::Lua::globals$", lambda it, n, a, t: {"__obj": "globals", "lua": a[0]})
 
     def table_set(it, n, a, t):
